@@ -108,7 +108,8 @@ def check(run):
     scenarios, total, replayed = scenarios_for(run, tier, rng)
     viol, cases, sums = wc.replay_and_validate(run, scenarios, "c19", procs, par)
     tot = judge(run, viol, cases, sums)
-    if tot["guarded"] == 0 or tot["truncated"] == 0:
+    mine = [v for v in run.viol if run.pmap.get(v.get("guard", "")) == run.pid]
+    if not mine and (tot["guarded"] == 0 or tot["truncated"] == 0):      # a verdict is never masked by the vacuity test
         raise vlib.InfraError("vacuous run: no guarded open / no truncated option list among %d traces" % len(cases))
     run.samples = [{"scenario": scenarios[0]["name"], "summary": sums[0]}, {"scenario": scenarios[-1]["name"], "summary": sums[-1]}]
     run.extra_cov.update({"tlc_enumerated_scenarios": total, "tlc_scenarios_replayed": replayed, "explorer_scenarios": tier["explore"],
